@@ -47,6 +47,31 @@ def standard_registry(P, J=None):
     return J, robj, [x.v for x in labels.items]
 
 
+class modifier_ref(object):
+    """the modifier the package registers under `name`, reached through Modifier_Registry()[name] (a function today; a callable
+    object or a function of another module is as good): .call(I, args) applies it, .site() says where it is defined"""
+    def __init__(self, P, name):
+        self.P, self.name = P, name
+        self._site = None
+
+    def value(self, I):
+        mr = I.instantiate(self.P.cls("atsim.potentials.config._modifier_registry", "Modifier_Registry"), [], {}, None)
+        v = I.getitem(mr, Const(self.name))
+        if self._site is None:
+            fi = getattr(v, "fi", None)
+            ci = getattr(v, "ci", None)
+            self._site = fi.site() if fi is not None else (ci.site_of("__call__") if ci is not None else "atsim/potentials/_modifiers.py")
+        return v
+
+    def call(self, I, args):
+        return I.call(self.value(I), list(args), {})
+
+    def site(self):
+        if self._site is None:
+            self.value(make_interp(self.P))
+        return self._site
+
+
 def distinct(*pairs):
     """assumption: the named symbols of each pair stand for different numbers"""
     want = set()
